@@ -282,12 +282,16 @@ PLACEMENTS_Q = [
     dict(placement="packed", N=1, alignment=64),
     dict(placement="grown", alignment=8),
     dict(placement="default", N=0, alignment=1, grow_step="sym"),
+    # "aligned" with a default alignment below the slot size: the allocator may return any offset (M10-C01)
+    dict(placement="aligned", N=1, alignment=1),
 ]
 PLACEMENTS_T = PLACEMENTS_Q + [
     dict(placement="default", N=2, alignment=8),
     dict(placement="aligned", N=1, alignment=64),
     dict(placement="default", N=1, alignment=1, kind="BufferByteArray"),
     dict(placement="explicit", N=2, alignment=8),
+    dict(placement="aligned", N=2, alignment=2),
+    dict(placement="packed", N=1, alignment=4),
 ]
 
 
